@@ -20,6 +20,7 @@ def gen(rng, cid):
     acc = []      # dicts: w, g, started, det, copies, seq
     ng, last_w, destroyed = 0, True, False
     ops = []      # (thread or None, text)
+    moves = 0
 
     def complete(b):
         return (b['det'] and b['started']) or (b['started'] and b['copies'] == 0 and b['got'])
@@ -40,6 +41,8 @@ def gen(rng, cid):
             cand.append(('req', 5))
         if not destroyed and (len(acc) >= nmax or steps > 3):
             cand.append(('destroy', 1))
+        if not destroyed and acc and moves < 2:
+            cand.append(('mvmtx', 1))                    # the owner moves the mutex; the moved-from object stays alive
         uns = [i for i, a in enumerate(acc) if not a['started']]
         if uns:
             cand.append(('start', 3 + 3 * eager))
@@ -49,7 +52,7 @@ def gen(rng, cid):
             cand.append(('rel', 4))
         if not cand:
             break
-        if all(c[0] == 'destroy' for c in cand) and rng.below(10) < 3:
+        if all(c[0] in ('destroy', 'mvmtx') for c in cand) and rng.below(10) < 3:
             break                                        # leave the mutex alive at the end
         o = rng.weighted(cand)
         if o == 'req':
@@ -59,6 +62,9 @@ def gen(rng, cid):
             last_w = w
             acc.append(dict(w=w, g=ng - 1, started=False, det=False, copies=0, seq=0, got=False))
             ops.append((0, 'w' if w else 'r'))
+        elif o == 'mvmtx':
+            moves += 1
+            ops.append((0, 'mvmtx'))
         elif o == 'destroy':
             destroyed = True
             ops.append((0, 'destroy'))
